@@ -14,7 +14,7 @@ PROPERTY = "C06"
 GEN = []
 PROPS = ["ScoresVerif/Props/C06.lean"]
 DRIVER_DEPS = ["ScoresVerif.Driver.C06"]
-AUDIT_FILES = ["ScoresVerif/Lemmas/CrpsEns.lean", "ScoresVerif/Model/CrpsEns.lean", "ScoresVerif/Spec/CrpsEns.lean"]
+AUDIT_FILES = ["ScoresVerif/Lemmas/CrpsEns.lean", "ScoresVerif/Lemmas/CrpsEnsBrier.lean", "ScoresVerif/Model/CrpsEns.lean", "ScoresVerif/Spec/CrpsEns.lean"]
 LEVEL = "proof"
 TRUSTED = ["hand-written model Model/CrpsEns.lean of crps_for_ensemble / tw variants / brier per-case formula "
            "(tied by differential correspondence only, no translator)",
@@ -29,8 +29,10 @@ MANIFEST = dict(
          "variants, for ensembles of any size over the rationals: 'ecdf' equals the exact step-function integral of "
          "(F_ens - 1{x>=obs})^2 (also with NaN members, which are dropped), 'fair' equals that integral minus the documented "
          "offset (one valid member: NaN), total = under + over - spread, lower tail + interval + upper tail = CRPS for "
-         "every split a<=b and both methods, invariance under member permutation (all components, incl. NaN), translation and "
-         "|a|-scaling, non-negativity and zero iff every member equals the observation. The model is tied to the code by a "
+         "every split a<=b, both methods and all four components, invariance under member permutation (all components, incl. NaN), translation and "
+         "|a|-scaling, non-negativity and zero iff every member equals the observation, and the exact threshold integral of the documented "
+         "ensemble Brier score (with and without fair correction; the per-case Brier formula of the model is proved equal to "
+         "it) equals the 'ecdf' / 'fair' CRPS. The model is tied to the code by a "
          "differential correspondence over all four public functions (both methods, components, weights, reductions, scalar "
          "and per-case thresholds, NaN members); the same statements plus 'tw value = weighted integral' and 'integral of "
          "the real brier_score_for_ensemble over all thresholds = CRPS (fair and not)' are evaluated on the implementation "
@@ -38,8 +40,8 @@ MANIFEST = dict(
     note="Trusted: Lean kernel; propext/Classical.choice/Quot.sound; the hand-written model (no translator: the code uses "
          "isel loops / concat) tied only by correspondence on dyadic inputs with tolerance 1e-9; SV.Fl (IEEE minus rounding, "
          "overflow, signed zero); 'integral of a finite step function = sum of width x value'. Not proved, only compared: "
-         "the Brier-threshold integral identity, tw = weighted integral, additivity of the under/over/spread components of "
-         "the partition, weights/mean reduction. Not modelled: alignment of differently ordered coordinates (C04/F12), "
+         "each tw value = weighted integral individually (their sum is proved, incl. the under/over/spread components), "
+         "weights/mean reduction. Not modelled: alignment of differently ordered coordinates (C04/F12), "
          "gather_dimensions (C01), infinite inputs. Fair CRPS with one valid member is NaN (F8, not a defect); in that "
          "situation the NaN-skipping mean over cases averages different case sets per component, so total = under+over-"
          "spread is checked per case.",
@@ -483,6 +485,7 @@ class Checker:
             idx.append((ci, len(ops), len(o)))
             ops += o
         res = core.run_driver("C06", ops)
+        work, bops = [], []
         for ci, s, k in idx:
             c = dict(calls[ci], reduce="cases", weights=None, components=False)
             fair = c["method"] == "fair"
@@ -504,6 +507,26 @@ class Checker:
                 continue
             if "err" in r:
                 continue
+            work.append((c, fair, sp, grid, labels, r, B, len(bops)))
+            bops += [{"op": "c06.brier_at", "args": {"xs": [core.fl_str(x) for x in c["members"][kk]], "y": core.fl_str(c["obs"][kk]),
+                                                     "thetas": [core.fl_str(g) for g in grid], "fair": fair}}
+                     for kk in range(len(labels))]
+        ball = core.run_driver("C06", bops)
+        for c, fair, sp, grid, labels, r, B, b0 in work:
+            # the integrand itself: real Brier values at every grid threshold = documented per-case formula (exact)
+            bres = ball[b0:b0 + len(labels)]
+            bad = False
+            for kk in range(len(labels)):
+                for key, kind in (("spec", "property"), ("model", "correspondence")):
+                    if not cmp_lists(list(B[kk]), bres[kk][key], core.close):
+                        self.kind, old_kind = kind, self.kind
+                        self.fail("brier-integral-eq-crps", c, "brier-value-vs-" + key, B[kk].tolist(), bres[kk][key],
+                                  "brierEns_eq_doc", {"grid": grid, "case_index": kk})
+                        self.kind = old_kind
+                        bad = True
+                        break
+                if bad:
+                    break
             for kk in range(len(labels)):
                 nvalid = sum(1 for x in c["members"][kk] if not math.isnan(x))
                 if fair and nvalid <= 1:
